@@ -140,7 +140,22 @@ class Ctx:
 def _run_task(t):
     """worker entry: run one deterministic task and tag its result with the task reference (for task-level replay)."""
     modname, funcname, arg = t
-    res = getattr(sys.modules.get(modname) or importlib.import_module(modname), funcname)(arg)
+    try:
+        res = getattr(sys.modules.get(modname) or importlib.import_module(modname), funcname)(arg)
+    except Exception as e:  # noqa: BLE001
+        # an exception that escapes from the code under test through a call the check did not wrap: the library raised on
+        # an input the check takes to be inside the property's premises.  Reported as a violation (replayed as a whole
+        # task); an exception raised by the harness' own code is re-raised (HARNESS error, never a violation).
+        import traceback
+        tb = traceback.extract_tb(e.__traceback__)
+        src = os.path.realpath(os.environ.get("VERIF_REPO", "/repo"))
+        inner = tb[-1]
+        if not os.path.realpath(inner.filename).startswith(src + os.sep):
+            raise
+        mine = [f for f in tb if not os.path.realpath(f.filename).startswith(src + os.sep)]
+        sig = "code_under_test_raises:%s:in_%s:called_from_%s" % (type(e).__name__, inner.name, mine[-1].name if mine else "?")
+        res = {"n": 1, "viols": [(sig, {"kind": "__crash__", "where": "%s:%d" % (os.path.basename(inner.filename), inner.lineno or 0), "message": str(e)[:200]})],
+               "vcount": {sig: 1}, "out": set(), "c": {}, "samples": [], "cov": {}}
     res["task"] = t
     return res
 
@@ -164,8 +179,8 @@ def task_replay_fresh(t):
     import pickle
     import subprocess
     modname, funcname, arg = t
-    code = ("import sys,pickle,base64,json,importlib; sys.path.insert(0,%r); m=importlib.import_module(%r); "
-            "arg=pickle.loads(base64.b64decode(sys.stdin.buffer.read())); r=getattr(m,%r)(arg); "
+    code = ("import sys,pickle,base64,json,importlib; sys.path.insert(0,%r); from engine import runner; "
+            "arg=pickle.loads(base64.b64decode(sys.stdin.buffer.read())); r=runner._run_task((%r,%r,arg)); "
             "print('@@TASK@@'+json.dumps(sorted(r['vcount'])))" % (ROOT, modname, funcname))
     p = subprocess.run([sys.executable, "-c", code], input=base64.b64encode(pickle.dumps(arg)), capture_output=True, timeout=3600)
     for ln in p.stdout.decode(errors="replace").split("\n"):
@@ -229,8 +244,7 @@ def main(argv=None):
             import base64
             import pickle
             c = body["case"]
-            m2 = importlib.import_module(c["module"])
-            r = getattr(m2, c["func"])(pickle.loads(base64.b64decode(c["arg_b64"])))
+            r = _run_task((c["module"], c["func"], pickle.loads(base64.b64decode(c["arg_b64"]))))
             got = [(s_, cs) for s_, cs in r["viols"] if s_ == body["signature"]][:1]
         else:
             got = mod.replay(body["case"])
@@ -261,7 +275,10 @@ def main(argv=None):
         cases = sorted(ctx.viols[sig], key=case_size)
         case = cases[0]
         # a violation is re-executed from its replay form before it is believed
-        again = mod.replay(json.loads(json.dumps(_jsonable(case))))
+        if isinstance(case, dict) and case.get("kind") == "__crash__":
+            again = []          # an escaped exception has no single-case replay form: the whole task is its replay
+        else:
+            again = mod.replay(json.loads(json.dumps(_jsonable(case))))
         if not any(s == sig for s, _ in again):
             # the single case does not fail on its own: the failure may depend on the calls made before it in the same
             # process (hidden caches, carried state).  Re-run the whole deterministic task that produced it in a brand-new
